@@ -126,7 +126,7 @@ def actions(node):
                     lab = q.show(a)
                     lab = lab.replace("Line::Label(", "").rstrip(")") if lab.startswith("Line::Label(") else lab
                     out.append(("L", lab.replace(".clone()", "")))
-            elif x["m"] in ("handle_func_call", "translate_iface_method_call_helper", "translate_func_call", "translate_lambda_call"):
+            elif x["m"] in ("handle_func_call", "translate_iface_method_call_helper", "translate_func_call", "translate_lambda_call", "translate_num_method_call"):
                 out.append(("C", x["m"]))
         elif x["k"] == "Call" and x["f"]["k"] == "Path" and x["f"]["p"] in ("helper", "perform_op"):
             names = [a["v"] for a in x["args"] if a["k"] == "Lit" and a["t"] == "str"]
